@@ -1,38 +1,521 @@
-"""C38 — flows from older mitmproxy versions load correctly (draft)."""
-from pyvc.api import *
+"""C38 — flows from older mitmproxy versions load correctly.
 
-CLAIM = "exploration"
+Statement: every flow file written by a supported older version (shipped dumps + synthetic states for each historical format
+version) loads into valid current flows; current-format states pass through migration unchanged; re-saving migrated flows
+and loading them again reproduces the same state; newer, unknown format versions are rejected with an explanatory error.
+
+T1 (machine-checked on the real source):
+  * the chain driver `migrate_flow`: current-version state returned unchanged (same object, frame), any newer integer version
+    => ValueError whose text names this mitmproxy, the file's version and says "please update mitmproxy", unknown older
+    versions (ints < 4, release tuples outside 0.11..3.0) => ValueError;
+  * the converter table: exactly the supported history, each version once;
+  * one contract per converter `convert_v` (29): on a flow state in the shape of format version v (concrete key structure,
+    symbolic payload leaves) the real converter yields the state in the shape of succ(v) — i.e. convert_v is a left inverse
+    of the committed inverse shape edit BACK[v] (props/compat_back.py) — and the version entry becomes succ(v)
+    (=> the version strictly increases along the chain and no step is skipped);
+  * the composition: `migrate_flow` itself run from every historical version on such a state reaches the current version
+    with exactly the state the format history prescribes (props/compat_back.expected_after).
+  The key structure of the states is concrete (one state per flow kind), so T1 is a proof for those shapes with arbitrary
+  payload leaves, not for all dict states: CLAIM stays "other".
+T2 (bounded): every shipped dump, synthetic old-shape states per version x flow kind x variant through the real FlowReader,
+  schema validity of the loaded flows, save/load fixpoint, future versions.
+"""
+from pyvc.api import *
+from pyvc.core import SV
+from props import compat_back as B
+
+CLAIM = "other"
+EXPLANATION = ("T1 proves the chain driver (identity on current states, rejection of newer/unknown versions with the explanatory text), "
+               "the completeness of the converter table, one left-inverse contract per converter and the composed chain from every "
+               "historical version, all on states whose key structure is concrete (one per flow kind; payload leaves symbolic). "
+               "That every *file* of a supported version loads (arbitrary state shapes, tnetstring reader, Flow.from_state, "
+               "save/load fixpoint) is bounded: T2 over all shipped dumps and synthetic states per version x kind x variant.")
+ASSUMPTIONS = [
+    "uuid.uuid4(): str() of the result is an arbitrary fresh string (pyvc/libx_compat.py)",
+    "str.format is modelled exactly for literal templates with plain {} fields; arguments other than str/int/bool/None/tuples of those render as opaque strings",
+    "the old state shapes are those of props/compat_back.py (inverse shape edits written from the format history, cross-checked against the shipped dumps of versions 0.11, 0.18, 7, 10, 11, 18, 20); historical files with other shapes are covered only as far as the shipped dumps go",
+    "flow kinds per version: HTTP flows for every version; TCP flows from format 7 (the first version whose converters test for non-HTTP flows); UDP/DNS flows from format 18",
+    "bytes.decode / always_str on symbolic payloads are not exercised in T1 (host names, SNI and ids stay concrete); T2 covers them",
+    "tnetstring parsing, Flow.from_state and FlowReader/FlowWriter are exercised in T2 only",
+]
 M = "mitmproxy.io.compat:migrate_flow"
+CM = "mitmproxy.io.compat"
+
+
+def _current():
+    from mitmproxy import version
+    return version.FLOW_FORMAT_VERSION
+
+
+def _exc_text(vc, out):
+    return out.raised.args[0]
+
+
+def _istr(vc, v):
+    if vc.mode == "native":
+        return str(v)
+    from pyvc import lib
+    return SStr(lib.int_to_str(v.t))
+
+
+# ---------------------------------------------------------------------------------------------
+# the chain driver
+
+
+@scenario("migrate_flow.current_is_identity", functions=[M])
+def s_current(vc):
+    key = vc.case("key", ["version", b"version"])
+    payload = vc.sym_bytes("payload")
+    typ = vc.sym_str("type")
+    inner = vc.dict([("content", payload)])
+    d = vc.dict([("type", typ), (key, _current()), ("request", inner)])
+    out = vc.call(M, d)
+    vc.ensure("no_exception", out.ok)
+    if not out.ok:
+        return
+    vc.ensure("same_object", out.result is d)
+    items = d.items if vc.mode == "sym" else list(d.items())
+    vc.ensure("frame.keys", len(items) == 3)
+    vc.ensure("frame.values", items[0][1] is typ or vc.eq(items[0][1], typ))
+    vc.ensure("frame.version", vc.eq(items[1][1], _current()))
+    vc.ensure("frame.nested", items[2][1] is inner)
+    it2 = inner.items if vc.mode == "sym" else list(inner.items())
+    vc.ensure("frame.nested_content", len(it2) == 1 and vc.eq(it2[0][1], payload))
+
+
+@scenario("migrate_flow.newer_rejected", functions=[M])
+def s_newer(vc):
+    from mitmproxy import version
+    key = vc.case("key", ["version", b"version"])
+    v = vc.sym_int("v", lo=_current() + 1)
+    d = vc.dict([(key, v), ("type", "http")])
+    out = vc.call(M, d)
+    vc.ensure("raises", not out.ok)
+    if out.ok:
+        return
+    vc.ensure("value_error", out.raised_type() is ValueError)
+    msg = _exc_text(vc, out)
+    vc.ensure("msg.names_this_mitmproxy", startswith(msg, version.MITMPROXY))
+    vc.ensure("msg.names_file_version", contains(msg, "flow format version " + _istr(vc, v)))
+    vc.ensure("msg.says_update", contains(msg, "please update mitmproxy"))
+
+
+@scenario("migrate_flow.unknown_int_rejected", functions=[M])
+def s_unknown_int(vc):
+    """an integer version that is neither current nor has a converter (anything below 4): rejected, no upgrade hint"""
+    v = vc.sym_int("v", hi=3)
+    d = vc.dict([("version", v), ("type", "http")])
+    out = vc.call(M, d)
+    vc.ensure("raises", not out.ok)
+    if out.ok:
+        return
+    vc.ensure("value_error", out.raised_type() is ValueError)
+    msg = _exc_text(vc, out)
+    vc.ensure("msg.names_file_version", contains(msg, "flow format version " + _istr(vc, v)))
+    vc.ensure("msg.no_update_hint", Not(contains(msg, "please update")))
+
+
+@scenario("migrate_flow.unknown_tuple_rejected", functions=[M])
+def s_unknown_tuple(vc):
+    """a release-number version (major, minor, patch) outside the supported history 0.11-0.19, 1.0, 2.0, 3.0"""
+    a, b_, c = vc.sym_int("major", lo=0), vc.sym_int("minor", lo=0), vc.sym_int("patch", lo=0)
+    known = Or(*[And(a == k[0], b_ == k[1]) for k in B.ORDER if isinstance(k, tuple)])
+    vc.assume(Not(known))
+    d = vc.dict([(b"version", vc.list([a, b_, c])), (b"type", b"http")])
+    out = vc.call(M, d)
+    vc.ensure("raises", not out.ok)
+    if out.ok:
+        return
+    vc.ensure("value_error", out.raised_type() is ValueError)
+
+
+@scenario("converters.table", functions=[M])
+def s_table(vc):
+    """the converter table covers exactly the supported history, which ends at the current format version"""
+    from mitmproxy.io import compat
+    vc.ensure("history_ends_at_current", B.ORDER[-1] == _current())
+    vc.ensure("one_converter_per_old_version", sorted(compat.converters, key=repr) == sorted(B.ORDER[:-1], key=repr))
+    vc.ensure("no_converter_for_current", _current() not in compat.converters)
+    # driver on the oldest unsupported release (0.10, as in the shipped dumpfile-010.mitm)
+    out = vc.call(M, vc.dict([(b"version", vc.list([0, 10, 1]))]))
+    vc.ensure("0.10_rejected", (not out.ok) and out.raised_type() is ValueError)
+
+
+# ---------------------------------------------------------------------------------------------
+# one contract per converter: convert_v is a left inverse of the committed inverse shape edit BACK[v] (props/compat_back.py)
+
+FIXED_IDS = {"id": "flow-0001", "client": "client-0001", "server": "server-0001"}
+KINDS = {
+    "http": lambda t: t.tflow(resp=True), "http_noresp": lambda t: t.tflow(), "http_err": lambda t: t.tflow(err=True),
+    "http_ws": lambda t: t.tflow(resp=True, ws=True), "tcp": lambda t: t.ttcpflow(), "tcp_err": lambda t: t.ttcpflow(err=True),
+    "udp": lambda t: t.tudpflow(), "dns": lambda t: t.tdnsflow(resp=True), "dns_err": lambda t: t.tdnsflow(err=True),
+}
+# first format version a flow kind is generated for (see ASSUMPTIONS)
+FIRST = {"http": (0, 11), "http_noresp": (0, 11), "http_err": (0, 11), "http_ws": 4, "tcp": 7, "tcp_err": 7, "udp": 18, "dns": 18, "dns_err": 18}
+
+
+def base_state(kind):
+    """deterministic current-format state (lists, not tuples) of a test flow of the given kind"""
+    from mitmproxy.test import tflow
+    f = KINDS[kind](tflow)
+    f.id = FIXED_IDS["id"]
+    f.client_conn.id = FIXED_IDS["client"]
+    f.server_conn.id = FIXED_IDS["server"]
+    return norm(f.get_state())
+
+
+def norm(o):
+    if isinstance(o, dict):
+        return {k: norm(v) for k, v in o.items()}
+    if isinstance(o, (list, tuple)):
+        return [norm(x) for x in o]
+    return o
+
+
+def clone(o):
+    """structure copy that shares the (possibly symbolic) leaves"""
+    if isinstance(o, dict):
+        return {k: clone(v) for k, v in o.items()}
+    if isinstance(o, list):
+        return [clone(x) for x in o]
+    return o
+
+
+# leaves that become symbolic in the contracts: (parent key, key) -> kind.  Only leaves that no inverse edit inspects
+# (they are only carried along / renamed) are listed.
+SYM_LEAVES = {
+    ("request", "content"): "bytes", ("request", "body"): "bytes", ("request", "path"): "bytes", ("request", "method"): "bytes",
+    ("request", "port"): "int",
+    ("response", "content"): "bytes", ("response", "body"): "bytes", ("response", "reason"): "bytes", ("response", "msg"): "bytes",
+    ("response", "status_code"): "int", ("response", "code"): "int",
+    (None, "intercepted"): "bool",
+}
+
+
+def _k2s(k):
+    return k.decode() if isinstance(k, bytes) else k
+
+
+def symbolize(vc, state, leaves=SYM_LEAVES):
+    out = clone(state)
+    for pk in list(out):
+        v = out[pk]
+        if isinstance(v, dict):
+            for k in list(v):
+                kind = leaves.get((_k2s(pk), _k2s(k)))
+                if kind and v[k] is not None:
+                    v[k] = _sym(vc, kind, f"{_k2s(pk)}.{_k2s(k)}")
+        else:
+            kind = leaves.get((None, _k2s(pk)))
+            if kind and v is not None:
+                out[pk] = _sym(vc, kind, _k2s(pk))
+    return out
+
+
+def _sym(vc, kind, name):
+    return {"bytes": vc.sym_bytes, "str": vc.sym_str, "bool": vc.sym_bool, "int": lambda n: vc.sym_int(n, lo=0)}[kind](name)
+
+
+def _conc(k):
+    c = k.concrete() if hasattr(k, "concrete") else None
+    return c if c is not None else k
 
 
 def dget(vc, d, key):
     if vc.mode == "native":
         return d[key]
     for k, v in d.items:
-        if vc.eq(k, key) is True or (hasattr(k, "concrete") and k.concrete() == key):
-            return v
+        if _conc(k) == key and type(_conc(k)) is type(key):
+            return vc.resolve(v)
     raise KeyError(key)
 
 
-@scenario("migrate_flow.current_is_identity", functions=[M])
-def s_current(vc):
-    from mitmproxy import version
-    payload = vc.sym_bytes("payload")
-    d = vc.dict([("version", version.FLOW_FORMAT_VERSION), ("x", payload)])
-    out = vc.call(M, d)
-    vc.ensure("no_exception", out.ok)
-    if not out.ok:
+def tree_eq(vc, got, exp, path, out):
+    """appends (path, condition) pairs stating got == exp (exp: native dict/list tree with possibly symbolic leaves)"""
+    if isinstance(got, SV) and vc.mode == "sym":
+        got = vc.resolve(got)
+    if isinstance(exp, dict):
+        items = None
+        if isinstance(got, SDict):
+            items = [(_conc(k), v) for k, v in got.items]
+        elif isinstance(got, dict):
+            items = list(got.items())
+        if items is None:
+            out.append((path, False))
+            return
+        gk = [k for k, _ in items]
+        if sorted(map(repr, gk)) != sorted(map(repr, exp)):
+            out.append(("/<keys>" + path, False))
+            return
+        for k, v in items:
+            tree_eq(vc, v, exp[k], f"{path}/{_k2s(k)}", out)
         return
-    vc.ensure("same_object", out.result is d)
+    if isinstance(exp, list):
+        gi = got.items if isinstance(got, (SList, STuple)) else (list(got) if isinstance(got, (list, tuple)) else None)
+        if gi is None or len(gi) != len(exp):
+            out.append((path + "/<len>", False))
+            return
+        for i, (g, e) in enumerate(zip(gi, exp)):
+            tree_eq(vc, g, e, f"{path}[{i}]", out)
+        return
+    if exp is None:
+        out.append((path, isnone(got)))
+    elif isinstance(exp, str) and exp == B.ANY_ID:
+        out.append((path, isinstance(got, (SStr, str))))
+    else:
+        out.append((path, _same_type(vc, got, exp) and vc.eq(got, exp)))
 
 
-@scenario("migrate_flow.newer_rejected", functions=[M])
-def s_newer(vc):
-    from mitmproxy import version
-    v = vc.sym_int("v", lo=version.FLOW_FORMAT_VERSION + 1)
-    d = vc.dict([("version", v), ("x", 1)])
-    out = vc.call(M, d)
-    vc.ensure("raises", not out.ok)
-    if out.ok:
+def _same_type(vc, got, exp):
+    if vc.mode == "native":
+        return type(got) is type(exp) or (isinstance(got, (int, float)) and isinstance(exp, (int, float)) and not isinstance(got, bool) and not isinstance(exp, bool))
+    e = lift(exp)
+    return got.kind == e.kind or {got.kind, e.kind} <= {"int", "float"}
+
+
+def _and_mixed(conds):
+    if any(x is False for x in conds):
+        return False
+    rest = [x for x in conds if x is not True]
+    return And(*rest) if rest else True
+
+
+def _version_is(vc, got, v):
+    """the version entry, read the way the format defines it (release tuples count by major.minor), equals v"""
+    if isinstance(v, tuple):
+        items = got.items if isinstance(got, (SList, STuple)) else (list(got) if isinstance(got, (list, tuple)) else None)
+        if items is None or len(items) < 2:
+            return False
+        return _and_mixed([vc.eq(items[0], v[0]), vc.eq(items[1], v[1])])
+    return (isinstance(got, SInt) or (isinstance(got, int) and not isinstance(got, bool))) and vc.eq(got, v)
+
+
+def ensure_tree(vc, name, got, exp, skip=(), kf=None):
+    """one obligation per top-level key of the state (plus `<keys>` for the key sets).  kf = (finding id, group, K)."""
+    out = []
+    if skip:
+        exp = {k: v for k, v in exp.items() if k not in skip}
+        if vc.mode == "sym":
+            got = SDict([(k, v) for k, v in got.items if _conc(k) not in skip])
+        else:
+            got = {k: v for k, v in got.items() if k not in skip}
+    tree_eq(vc, got, exp, "", out)
+    groups = {}
+    for path, cond in out:
+        top = path.split("/")[1].split("[")[0] if "/" in path else ""
+        groups.setdefault(top, []).append(cond)
+    if "<keys>" not in groups:
+        groups["<keys>"] = [True]
+    for top, conds in groups.items():
+        c = _and_mixed(conds)
+        if kf is not None and kf[1] == top:
+            vc.ensure_kf(f"{name}/{top}", c, kf[0], kf[2])
+        else:
+            vc.ensure(f"{name}/{top}", c)
+
+
+def _conv_name(v):
+    from mitmproxy.io import compat
+    return CM + ":" + compat.converters[v].__name__
+
+
+# --- symbolic inputs for the converters that branch on a value: EXTRA[v](vc, kind, old, target) edits both states --------
+
+def _x_20(vc, kind, old, target):  # "QUIC" -> "QUICv1", anything else unchanged
+    for c in ("client_conn", "server_conn"):
+        t = vc.sym_str(c + ".tls_version")
+        old[c]["tls_version"] = t
+        target[c]["tls_version"] = If(t == "QUIC", "QUICv1", t) if vc.mode == "sym" else ("QUICv1" if t == "QUIC" else t)
+
+
+def _x_12(vc, kind, old, target):  # marked: bool -> marker string
+    m = vc.sym_bool("marked")
+    old["marked"] = m
+    target["marked"] = ":default:" if vc.branch(m) else ""
+
+
+def _x_8(vc, kind, old, target):  # per-message replay flags -> flow-level is_replay
+    if "request" not in old:
         return
-    vc.ensure("value_error", out.raised_type() is ValueError)
+    rq, rs = vc.sym_bool("request.is_replay"), vc.sym_bool("response.is_replay")
+    old["request"]["is_replay"] = rq
+    has_resp = old.get("response") is not None
+    if has_resp:
+        old["response"]["is_replay"] = rs
+    if vc.branch(rq):
+        target["is_replay"] = "request"
+    elif has_resp and vc.branch(rs):
+        target["is_replay"] = "response"
+    else:
+        target["is_replay"] = None
+
+
+def _x_13(vc, kind, old, target):  # issue 4576: responses saved without timestamps get request.timestamp_end (+1)
+    if old.get("response") is None or not vc.case("response_without_timestamps", [False, True]):
+        return
+    te = vc.sym_int("request.timestamp_end", lo=0)
+    old["request"]["timestamp_end"] = te
+    target["request"]["timestamp_end"] = te
+    old["response"]["timestamp_start"] = None
+    old["response"]["timestamp_end"] = None
+    target["response"]["timestamp_start"] = te
+    target["response"]["timestamp_end"] = te + 1
+
+
+def _x_9(vc, kind, old, target):  # the negotiated ALPN / cipher become the only known offer
+    a = vc.sym_bytes("client.alpn")
+    old["client_conn"]["alpn_proto_negotiated"] = a
+    target["client_conn"]["alpn_proto_negotiated"] = a
+    target["client_conn"]["alpn_offers"] = [a] if vc.branch(len_(a) > 0) else None
+    ci = vc.sym_str("client.cipher")
+    old["client_conn"]["cipher_name"] = ci
+    target["client_conn"]["cipher_name"] = ci
+    target["client_conn"]["cipher_list"] = [ci] if vc.branch(len_(ci) > 0) else None
+    cert = vc.sym_bytes("server.cert")
+    old["server_conn"]["cert"] = cert
+    target["server_conn"]["certificate_list"] = [cert] if vc.branch(len_(cert) > 0) else []
+
+
+def _x_15(vc, kind, old, target):  # timestamp_created = start of the request (HTTP) / of the client connection
+    ts = vc.sym_int("timestamp_start", lo=0)
+    where = "request" if "request" in old else "client_conn"
+    old[where]["timestamp_start"] = ts
+    target[where]["timestamp_start"] = ts
+    target["timestamp_created"] = ts
+
+
+EXTRA = {20: _x_20, 12: _x_12, 8: _x_8, 13: _x_13, 9: _x_9, 15: _x_15}
+
+# known findings (see known_findings.d/C38.json)
+KF2_STEPS = ((0, 13), (0, 15))   # KF-C38-2: converters that dereference a missing response
+KF3_STEP = 11                    # KF-C38-3: "websocket": None added to non-HTTP flows
+
+
+def _step_target(vc, kind, v):
+    """(old state in shape v, expected state in shape succ(v)) with shared symbolic leaves"""
+    base = base_state(kind)
+    nxt = B.succ(v)
+    target = B.to_version(B.expected_after(base, v), nxt)
+    if v == (0, 17):
+        B.py2_values(target)  # host names / SNI are still byte strings after this step; converted later in the chain
+    if v == 9:  # format 10 wrote "no offers" as None (normalised to [] by the next step)
+        for c in (target["client_conn"], target["server_conn"]):
+            c["alpn_offers"] = c["alpn_offers"] or None
+            c["cipher_list"] = c["cipher_list"] or None
+    target = symbolize(vc, target)
+    old = clone(target)
+    B.BACK[v](old)
+    old[b"version" if b"type" in old else "version"] = B.version_value(v)
+    if v in EXTRA:
+        EXTRA[v](vc, kind, old, target)
+    return old, target, nxt
+
+
+STEP_KINDS = ["http", "http_noresp", "http_err", "tcp"]
+
+
+def _mk_step(v):
+    @scenario(f"convert.step[{v}]", functions=[_conv_name(v)])
+    def s(vc):
+        kinds = [k for k in STEP_KINDS if B.rank(FIRST[k]) <= B.rank(v)]
+        kind = vc.case("flow", kinds)
+        old, target, nxt = _step_target(vc, kind, v)
+        out = vc.call(_conv_name(v), vc.lift(old) if vc.mode == "sym" else old)
+        if v in KF2_STEPS:
+            vc.ensure_kf("no_exception", out.ok, "KF-C38-2", kind in ("http_noresp", "http_err"))
+        else:
+            vc.ensure("no_exception", out.ok)
+        if not out.ok:
+            return
+        vkey = b"version" if b"type" in target else "version"
+        got_v = dget(vc, out.result, vkey)
+        vc.ensure("version.is_successor", _version_is(vc, got_v, nxt))
+        ensure_tree(vc, "result", out.result, target, skip=(vkey,), kf=("KF-C38-3", "<keys>", kind == "tcp") if v == KF3_STEP else None)
+
+    return s
+
+
+for _v in B.ORDER[:-1]:
+    _mk_step(_v)
+
+
+@scenario("convert.step[11].websocket_pair", functions=[CM + ":convert_11_12"])
+def s_ws_pair(vc):
+    """format <= 11 stored a WebSocket connection as the handshake HTTP flow plus a separate "websocket" flow: the pair
+    becomes the handshake flow (no websocket data) and a copy of it that carries the connection's messages and close data"""
+    base = base_state("http_ws")
+    text = vc.sym_str("text_payload")
+    binary = vc.sym_bytes("binary_payload")
+    hs, ws = B.split_websocket(base, 11)
+    ws["messages"][0][2] = binary
+    ws["messages"][1][2] = text          # TEXT message: str in the old files
+    exp1 = B.to_version(B.expected_after(base, 11), 12)
+    exp1["websocket"] = None
+    exp1["metadata"] = {"websocket": True}
+    lift_ = (lambda x: vc.lift(x)) if vc.mode == "sym" else (lambda x: x)
+    o1 = vc.call(CM + ":convert_11_12", lift_(hs))
+    vc.ensure("handshake.no_exception", o1.ok)
+    if not o1.ok:
+        return
+    ensure_tree(vc, "handshake", o1.result, exp1)
+    o2 = vc.call(CM + ":convert_11_12", lift_(ws))
+    vc.ensure("websocket.no_exception", o2.ok)
+    if not o2.ok:
+        return
+    r = o2.result
+    vc.ensure("websocket.is_http_flow", _and_mixed([vc.eq(dget(vc, r, "type"), "http"), vc.eq(dget(vc, r, "id"), base["id"])]))
+    wsd = dget(vc, r, "websocket")
+    msgs = dget(vc, wsd, "messages")
+    msgs = msgs.items if vc.mode == "sym" else msgs
+    vc.ensure("websocket.message_count", len(msgs) == 3)
+    if len(msgs) != 3:
+        return
+    m0 = msgs[0].items if vc.mode == "sym" else msgs[0]
+    m1 = msgs[1].items if vc.mode == "sym" else msgs[1]
+    vc.ensure("websocket.binary_payload_unchanged", _and_mixed([isinstance(m0[2], (SBytes, bytes)), vc.eq(m0[2], binary)]))
+    # current flows keep every message payload as bytes (websocket.WebSocketMessage.content: bytes)
+    vc.ensure_kf("websocket.text_payload_is_bytes", isinstance(m1[2], (SBytes, bytes)), "KF-C38-1", True)
+    vc.ensure("websocket.close_data", _and_mixed([vc.eq(dget(vc, wsd, "close_code"), base["websocket"]["close_code"]), vc.eq(dget(vc, wsd, "close_reason"), base["websocket"]["close_reason"]),
+                                                  vc.eq(dget(vc, wsd, "closed_by_client"), base["websocket"]["closed_by_client"])]))
+    vc.ensure("websocket.request_kept", vc.eq(dget(vc, dget(vc, r, "request"), "path"), base["request"]["path"]))
+
+
+# ---------------------------------------------------------------------------------------------
+# the composition: migrate_flow from every historical version
+
+CHAIN_KINDS = ["http", "http_noresp", "http_err", "tcp"]
+
+
+def _mk_chain(v):
+    @scenario(f"migrate_flow.chain[{v}]", functions=[M] + [_conv_name(w) for w in B.ORDER[B.rank(v):-1]], max_unroll=40)
+    def s(vc):
+        kinds = [k for k in CHAIN_KINDS if B.rank(FIRST[k]) <= B.rank(v)]
+        kind = vc.case("flow", kinds)
+        base = base_state(kind)
+        expected = symbolize(vc, B.expected_after(base, v))
+        old = clone(expected)
+        for w in reversed(B.ORDER[B.rank(v):-1]):
+            if w == (0, 17):
+                B.py2_values(old)
+            B.BACK[w](old)
+        old[b"version" if b"type" in old else "version"] = B.version_value(v)
+        if B.rank(v) <= B.rank((0, 17)):
+            # written under Python 2: migrate_flow leaves request.host a byte string (Request() decodes it: T2)
+            expected["request"]["host"] = B._b(expected["request"]["host"])
+        kf2 = kind in ("http_noresp", "http_err") and B.rank(v) <= B.rank((0, 15))
+        kf3 = kind == "tcp" and B.rank(v) <= B.rank(11)
+        out = vc.call(M, vc.lift(old) if vc.mode == "sym" else old)
+        if kf2:
+            vc.ensure_kf("no_exception", out.ok, "KF-C38-2", True)
+        else:
+            vc.ensure("no_exception", out.ok)
+        if not out.ok:
+            return
+        vc.ensure("version.is_current", _version_is(vc, dget(vc, out.result, "version"), _current()))
+        ensure_tree(vc, "state", out.result, expected, kf=("KF-C38-3", "<keys>", True) if kf3 else None)
+
+    return s
+
+
+for _v in B.ORDER[:-1]:
+    _mk_chain(_v)
